@@ -167,7 +167,7 @@ class NumpyTheory:
         if ci.etype == 'bool':
             self.used('boolean-mask selection x[m]: order-preserving selection (ghost index maps)')
             self.oblige(st, 'index', 'mask-same-length', ci.length == cb.length, node, raises='IndexError')
-            return self.select(base, lambda i: ci.leaves[0][i], st, width=base.width)
+            return self.select(base, lambda i: ci.leaves[0][i], st, width=base.width, mask_key=ci.leaves[0])
         if ci.etype == 'int' or ci.etype is None:
             self.used('integer-array gather x[idx] (negative indices wrap)')
             n = cb.length
@@ -186,10 +186,43 @@ class NumpyTheory:
             return res
         return None
 
-    def select(self, base, cond_at, st, width=None):
+    def mask_maps(self, mask_key, n, cond_at, st):
+        """the enumeration of the True positions of one mask term: (count, sel, inv); ONE set of ghost maps per mask, so that
+        x[m] and y[m] (and z[m] = ...) enumerate the same positions in the same order"""
+        cache = st.ghost.setdefault('__maskmaps__', {}) if False else getattr(self, '_maskmaps', None)
+        if cache is None:
+            cache = self._maskmaps = {}
+        key = mask_key.get_id() if mask_key is not None else None
+        if key is not None and key in cache and cache[key][0].eq(mask_key):
+            return cache[key][1:]
+        m = z3.Int(fresh_name('nsel'))
+        sel = z3.Function(fresh_name('sel'), z3.IntSort(), z3.IntSort())
+        inv = z3.Function(fresh_name('inv'), z3.IntSort(), z3.IntSort())
+        i, j, j2 = z3.Int(fresh_name('si')), z3.Int(fresh_name('sj')), z3.Int(fresh_name('sj'))
+        ax = z3.And(m >= 0, m <= n,
+                    z3.ForAll([j], z3.Implies(z3.And(j >= 0, j < m), z3.And(sel(j) >= 0, sel(j) < n, cond_at(sel(j)), inv(sel(j)) == j))),
+                    z3.ForAll([j, j2], z3.Implies(z3.And(j >= 0, j < j2, j2 < m), sel(j) < sel(j2))),
+                    z3.ForAll([i], z3.Implies(z3.And(i >= 0, i < n, cond_at(i)), z3.And(inv(i) >= 0, inv(i) < m, sel(inv(i)) == i))))
+        if key is not None:
+            cache[key] = (mask_key, m, sel, inv, ax)
+        return m, sel, inv, ax
+
+    def select(self, base, cond_at, st, width=None, mask_key=None):
         """order-preserving selection of the elements of `base` whose index i satisfies cond_at(i)"""
         cb = self.acell(base, st)
         n = cb.length
+        if mask_key is not None:
+            m, sel, inv, ax = self.mask_maps(mask_key, n, cond_at, st)
+            if not any(t is ax for t in st.pc):
+                st.pc.append(ax)
+            res, ml = st.heap.fresh_list(cb.etype, 'sel')
+            rc = st.heap.lists[res.ref]
+            st.assume(ml == m)
+            j = z3.Int(fresh_name('sj'))
+            st.assume(z3.ForAll([j], z3.Implies(z3.And(j >= 0, j < m), z3.And([r[j] == x[sel(j)] for r, x in zip(rc.leaves, cb.leaves)]))))
+            out = VList(res.ref, nd=True, width=width)
+            out.sel, out.inv = sel, inv
+            return out
         res, m = st.heap.fresh_list(cb.etype, 'sel')
         rc = st.heap.lists[res.ref]
         sel = z3.Function(fresh_name('sel'), z3.IntSort(), z3.IntSort())
@@ -225,9 +258,18 @@ class NumpyTheory:
             self.used('boolean-mask assignment x[m] = scalar')
             self.oblige(st, 'index', 'mask-same-length', ci.length == n, node, raises='IndexError')
             if isinstance(val, VList):
-                raise Unsupported('mask assignment of an array value')
-            v = scalar(val)
-            st.assume(z3.ForAll([j], z3.Implies(z3.And(j >= 0, j < n), newA[j] == z3.If(ci.leaves[0][j], v, A[j]))))
+                # x[m] = v with an array v: the True positions receive v[0], v[1], ... in order (v must have as many elements)
+                cv = self.acell(val, st)
+                M = ci.leaves[0]
+                m, sel, inv, ax = self.mask_maps(M, n, lambda i_: M[i_], st)
+                if not any(t is ax for t in st.pc):
+                    st.pc.append(ax)
+                self.oblige(st, 'pre', 'mask-assignment-value-count', cv.length == m, node, raises='ValueError')
+                V = cv.leaves[0]
+                st.assume(z3.ForAll([j], z3.Implies(z3.And(j >= 0, j < n), newA[j] == z3.If(M[j], V[inv(j)], A[j]))))
+            else:
+                v = scalar(val)
+                st.assume(z3.ForAll([j], z3.Implies(z3.And(j >= 0, j < n), newA[j] == z3.If(ci.leaves[0][j], v, A[j]))))
         elif ci.etype == 'int':
             self.used('integer-array scatter x[idx] = v (duplicate targets: the value of some writer)')
             idx = ci.leaves[0]
@@ -507,6 +549,50 @@ class NumpyTheory:
         st.assume(z3.ForAll([i], z3.Implies(z3.And(i >= 0, i < m), z3.And(ia(i) >= 0, ia(i) < ca.length, A[ia(i)] == R[i], ib(i) >= 0, ib(i) < cb.length, B[ib(i)] == R[i]))))
         st.assume(z3.ForAll([p, q], z3.Implies(z3.And(p >= 0, p < ca.length, q >= 0, q < cb.length, A[p] == B[q]), z3.And(pos(p, q) >= 0, pos(p, q) < m, R[pos(p, q)] == A[p]))))
         return VList(res.ref, nd=True)
+
+    def rag_psum(self, rc, st):
+        """PS(p) = total length of rows 0..p-1 of a list of arrays (uninterpreted + defining recurrence + monotonicity)"""
+        PS = z3.Function('rpsum', z3.ArraySort(z3.IntSort(), z3.IntSort()), z3.IntSort(), z3.IntSort())
+        key = ('rpsum', rc.lens.get_id())
+        if not any(getattr(t, '_ax_key', None) == key for t in st.pc):
+            p, q = z3.Int(fresh_name('p')), z3.Int(fresh_name('q'))
+            ax = z3.And(PS(rc.lens, z3.IntVal(0)) == 0,
+                        z3.ForAll([p], z3.Implies(z3.And(p >= 0, p < rc.count), PS(rc.lens, p + 1) == PS(rc.lens, p) + rc.lens[p])),
+                        z3.ForAll([p, q], z3.Implies(z3.And(p >= 0, p <= q, q <= rc.count), PS(rc.lens, p) <= PS(rc.lens, q))))
+            axs = [ax]
+            l0 = rc.lens
+            while z3.is_store(l0):
+                # prefix determinacy (generic fold lemma, as for ops_fold): entries at or beyond index i do not affect PS(., p) for p <= i
+                i_, l1 = l0.children()[1], l0.children()[0]
+                p2 = z3.Int(fresh_name('p'))
+                axs.append(z3.ForAll([p2], z3.Implies(z3.And(p2 >= 0, p2 <= i_), PS(l0, p2) == PS(l1, p2))))
+                l0 = l1
+            ax = z3.And(axs) if len(axs) > 1 else ax
+            ax._ax_key = key
+            st.pc.append(ax)
+        return lambda t: PS(rc.lens, t)
+
+    def concat_rag(self, rag, st, node):
+        self.used('np.concatenate of a list of 1-D arrays')
+        rc = st.heap.rags[rag.ref]
+        self.oblige(st, 'pre', 'np.concatenate.at-least-one-array', rc.count >= 1, node, raises='ValueError')
+        PS = self.rag_psum(rc, st)
+        n = PS(rc.count)
+        res, leaves = self.new_arr(st, rc.etype, n, 'concat')
+        R = leaves[0]
+        row = z3.Function(fresh_name('crow'), z3.IntSort(), z3.IntSort())
+        off = z3.Function(fresh_name('coff'), z3.IntSort(), z3.IntSort())
+        p, i, f = z3.Int(fresh_name('p')), z3.Int(fresh_name('i')), z3.Int(fresh_name('f'))
+        st.assume(z3.ForAll([p, i], z3.Implies(z3.And(p >= 0, p < rc.count, i >= 0, i < rc.lens[p]),
+                                               z3.And(R[PS(p) + i] == rc.data[p][i], row(PS(p) + i) == p, off(PS(p) + i) == i))))
+        st.assume(z3.ForAll([f], z3.Implies(z3.And(f >= 0, f < n), z3.And(row(f) >= 0, row(f) < rc.count, off(f) >= 0, off(f) < rc.lens[row(f)],
+                                                                       PS(row(f)) + off(f) == f, R[f] == rc.data[row(f)][off(f)]))))
+        return res
+
+    def np_np_concatenate(self, args, kw, st, node):
+        if args and isinstance(args[0], VRag):
+            return self.concat_rag(args[0], st, node)
+        return None
 
     def np_np_isnan(self, args, kw, st, node):
         # reals carry no NaN (A-REAL; NaN-related clauses are bounded only)
